@@ -99,6 +99,20 @@ class SegmentAllocationTableAdapter(Adapter):
                     elif value_current == AKAI_SAT_FREE_FLAG or \
                             (value_current < size and dirty_flags[value_current]):
 
+                        if value_current != AKAI_SAT_FREE_FLAG \
+                                and value_current not in links:
+                            # ran onto a chain decoded earlier (the head of
+                            # a chain need not be its lowest sector): join it
+                            links.append(subpath_index)
+                            for prev_link, next_link in zip(
+                                    links, 
+                                    links[1:] + [value_current]
+                            ):
+                                sector_links[prev_link] = SectorLink(
+                                    next=next_link, 
+                                    end=False
+                                )
+
                         continue_flag = False
                         dirty_flags[subpath_index] = True
                         previous_sector_was_directory = False
